@@ -317,6 +317,20 @@ func newC03env(configureDefault bool) (*c03env, error) {
 		e.pool = append(e.pool, b)
 		e.shape = append(e.shape, "bare-lookalike")
 	}
+	// W10: a real file that was closed under the logger (rotated away): every Write fails with os.ErrClosed. What it was
+	// handed cannot be observed; what matters is that nobody ELSE gets the record because of it
+	f10, ferr := os.OpenFile("w10.out", os.O_RDWR|os.O_CREATE|os.O_TRUNC, 0o644)
+	if ferr != nil {
+		return nil, ferr
+	}
+	_ = f10.Close()
+	e.pool = append(e.pool, f10)
+	e.shape = append(e.shape, "closed *os.File")
+	// W11: a LevelSettable destination registered through the exported NewLogWriter wrapper
+	w11 := mon.New(e.log, "W11", mon.ShapeLvlPlain)
+	e.pool = append(e.pool, slog.NewLogWriter(w11))
+	e.shape = append(e.shape, "NewLogWriter(LevelSettable)")
+	e.lvlS["W11"] = true
 	var err error
 	e.fds, err = captureFds()
 	if err != nil {
@@ -620,6 +634,9 @@ func (e *c03env) probeAll(lg *slog.Entry, model *wmodel, rp func(k string, n int
 		}
 		sort.Strings(keys)
 		for _, k := range keys {
+			if k == "W10" {
+				continue // the closed file: what it was handed cannot be observed
+			}
 			g, w := got[k], want[k]
 			ok := g == w
 			if !ok && d.loose[k] && g >= 0 && g <= w {
@@ -734,7 +751,7 @@ func c03alphabet(full bool) []wop {
 	ws := []int{0, 1, 2, 6}
 	lvls := []slog.Level{slog.InfoLevel, slog.ErrorLevel}
 	if full {
-		ws = []int{0, 1, 2, 3, 4, 5, 6, 7, 8, 9}
+		ws = []int{0, 1, 2, 3, 4, 5, 6, 7, 8, 9, 10, 11}
 		lvls = []slog.Level{slog.InfoLevel, slog.ErrorLevel, slog.DebugLevel, slog.AlwaysLevel, slog.FailLevel, lvlCustErr, lvlCustPlain, slog.Level(88)}
 	}
 	for _, n := range []string{"SetWriter", "AddWriter", "RemoveWriter", "SetErrorWriter", "AddErrorWriter", "RemoveErrorWriter"} {
